@@ -141,3 +141,170 @@ def h_iter(c, le, kind):
 
 
 h_iter.must_cover = ["returned", "iteration"]
+
+
+@harness(["C12", "C09", "C07"], "container.unbounded.init", functions=[RD + ".__init__"], cases=[(le,) for le in (True, False)], timeout=20000)
+def h_init(c, le):
+    """UNBOUNDED Reader.__init__: a section header, then ANY number of blocks that are not interface descriptions (secrets, name
+    resolution, custom ...), then the first Interface Description Block with ANY number of options of any code, if_tsresol / if_tsoffset
+    possibly repeated (the bounded harness container.reader stays as the byte-level cross-check with <= 2 blocks and <= 1 option of a kind).
+    Loop contract of the search: the reader stands at block r <= J (J = index of the first IDB), no IDB seen; it stops AT the IDB.
+    Loop contract of the option scan (ghost lastres(i) / lastoff(i) = index of the last if_tsresol / if_tsoffset option among the first i,
+    definitional): the divisor is 10^6 if lastres(i) < 0, else base^(low seven bits) with base 2 iff the byte's top bit is set - of THAT
+    option; the offset is 0 if lastoff(i) < 0, else the signed 64-bit value of that option in the section's byte order.  Hence, for any
+    such file: resolution and offset are those of the first interface's LAST such options (pcapng 4.2), whatever surrounds them."""
+    if c.native:
+        return
+    from pyvc import dpktmodel
+    from pyvc.core import FloatExpr, Unsupported, to_bytes_val
+    from pyvc.symlist import SpecList
+    dpktmodel.GHOST.clear()
+    J = c.int("blocks_before_the_first_interface_description", 0, None)
+    flen = c.int("file_len", 0, None)
+    F = c.bytes("file", length=flen)
+    fpos, blen = c.uf("block_offset"), c.uf("block_total_length")
+
+    def u32(p):
+        b = [F[p], F[p + 1], F[p + 2], F[p + 3]]
+        if le:
+            b.reverse()
+        return ((b[0] * 256 + b[1]) * 256 + b[2]) * 256 + b[3]
+    # the section header: 28 bytes (no options), byte-order magic and version 1.x as the case's byte order writes them
+    magic = [0x4d, 0x3c, 0x2b, 0x1a] if le else [0x1a, 0x2b, 0x3c, 0x4d]
+    c.assume(band(flen >= 28, F[0] == 0x0a, F[1] == 0x0d, F[2] == 0x0d, F[3] == 0x0a, u32(4) == 28, *[F[8 + i] == magic[i] for i in range(4)]))
+    c.assume(band(F[12] == (1 if le else 0), F[13] == (0 if le else 1)))                       # major version 1
+    c.assume(fpos(0) == 28)
+
+    def block_def(q):
+        c.assume(implies(band(0 <= q, q <= J), band(fpos(q) >= 28, blen(q) >= 12, fpos(q + 1) == fpos(q) + blen(q), fpos(q + 1) <= flen, u32(fpos(q) + 4) == blen(q))))
+        c.assume(implies(band(0 <= q, q < J), u32(fpos(q)) != 1))
+        c.assume(u32(fpos(J)) == 1)
+    pos = {"p": 0}
+
+    def fileop(m, a, k):
+        if m == "read":
+            lo = pos["p"]
+            out = F[lo:lo + a[0]]
+            pos["p"] = lo + len_(out)
+            return out
+        if m == "seek":
+            pos["p"] = a[0]
+            return None
+        if m == "tell":
+            return pos["p"]
+        raise Unsupported("file.%s" % m)
+    f = c.recorder("file", handler=fileop)
+    f.attrs["name"] = "capture.pcapng"
+    f.attrs["__class__"] = c.record("type", __name__="BufferedReader")
+    # options of the first interface description: any number, any codes
+    N = c.int("n_options", 0, None)
+    ocode, odata_len = c.uf("option_code"), c.uf("option_length")
+    lastres, lastoff = c.uf("last_tsresol_before"), c.uf("last_tsoffset_before")
+    OD = c.bytes("option_bytes", min_len=0)
+    ostart = c.uf("option_data_offset")
+
+    def odata(j):
+        return OD[ostart(j):ostart(j) + odata_len(j)]
+
+    def opt_def(j):
+        inside = band(0 <= j, j < N)
+        c.assume(implies(inside, band(ocode(j) >= 0, ocode(j) <= 65535, odata_len(j) >= 0, ostart(j) >= 0, ostart(j) + odata_len(j) <= len_(OD),
+                                      implies(ocode(j) == 9, odata_len(j) == 1), implies(ocode(j) == 14, odata_len(j) == 8),
+                                      lastres(j + 1) == ite(ocode(j) == 9, j, lastres(j)), lastoff(j + 1) == ite(ocode(j) == 14, j, lastoff(j)))))
+        c.assume(band(lastres(0) == -1, lastoff(0) == -1, lastres(j) >= -1, lastres(j) < N, lastoff(j) >= -1, lastoff(j) < N))
+        for fn, code in ((lastres, 9), (lastoff, 14)):
+            k = fn(j)
+            c.assume(implies(k >= 0, band(ocode(k) == code, odata_len(k) == (1 if code == 9 else 8), ostart(k) >= 0, ostart(k) + odata_len(k) <= len_(OD))))
+
+    def make_opt(j):
+        return c.record("dpkt.pcapng.PcapngOption", code=ocode(j), data=odata(j), len=odata_len(j))
+    opts = SpecList("idb.opts", N, make_opt, lambda x, q: True)
+    idb_made = []
+
+    def idb_model(is_le):
+        def mk(I, buf):
+            b = to_bytes_val(buf)
+            ok = c.prove(band(len_(b) == blen(J), b[0] == F[fpos(J)], b[len_(b) - 1] == F[fpos(J + 1) - 1]))
+            c.ensure("interface_description.class_applied_to_exactly_the_bytes_of_the_first_such_block", ok)
+            c.ensure("interface_description.byte_order_of_the_section", is_le == le)
+            idb_made.append(1)
+            return c.record("dpkt.IDB", opts=opts, linktype=1, snaplen=65535)
+        return mk
+    c.lib_model_raw("dpkt.pcapng.InterfaceDescriptionBlock", idb_model(False))
+    c.lib_model_raw("dpkt.pcapng.InterfaceDescriptionBlockLE", idb_model(True))
+
+    def canon_divisor(k):
+        """the divisor the specification assigns when the last if_tsresol option among those seen is option k (k < 0: none)"""
+        if c.truth_fork(k < 0):
+            return 1e6
+        rb = odata(k)[0]
+        base = 2 if c.truth_fork(rb >= 128) else 10
+        return FloatExpr("float_pow", (base, rb % 128))
+
+    def canon_offset(k):
+        if c.truth_fork(k < 0):
+            return 0
+        d = odata(k)
+        bs = [d[i] for i in range(8)]
+        if le:
+            bs.reverse()
+        v = 0
+        for x in bs:
+            v = v * 256 + x
+        return ite(v >= 2 ** 63, v - 2 ** 64, v)
+    gh = {"r": 0, "i": 0}
+    rd_box = {}
+
+    def same_float(a, b):
+        if isinstance(a, FloatExpr) and isinstance(b, FloatExpr):
+            return c.prove(a.pyvc_eq(c.I, b))
+        return (not isinstance(a, FloatExpr)) and (not isinstance(b, FloatExpr)) and a == b
+
+    def ghost_search(phase, e):
+        if phase == "havoc":
+            gh["r"] = c.fresh_int("block_index", 0, None)
+            block_def(gh["r"])
+            pos["p"] = fpos(gh["r"])
+        elif phase == "step":
+            gh["r"] = gh["r"] + 1
+            c.cover("search_iteration")
+
+    def ghost_opts(phase, e):
+        slf = e.self
+        if phase == "havoc":
+            i = e.it
+            gh["i"] = i
+            opt_def(i)
+            slf.attrs["_divisor"] = canon_divisor(lastres(i))
+            slf.attrs["_tsoffset"] = canon_offset(lastoff(i))
+        elif phase == "step":
+            i = gh["i"]
+            c.ensure("options.divisor_is_that_of_the_last_tsresol_option_so_far", same_float(slf.attrs["_divisor"], canon_divisor(lastres(i + 1))))
+            c.ensure("options.offset_is_that_of_the_last_tsoffset_option_so_far", c.prove(eq(slf.attrs["_tsoffset"], canon_offset(lastoff(i + 1)))))
+            c.cover("option_iteration")
+    block_def(0)
+    opt_def(0)
+    c.loop(RD + ".__init__", "while 1", invariant=lambda e: band(0 <= gh["r"], gh["r"] <= J, pos["p"] == fpos(gh["r"]), e.idb is None),
+           decreases=lambda e: J + 1 - gh["r"], ghost_step=ghost_search,
+           havoc={"buf": lambda cur: None, "blk_type": lambda cur: None, "blk_len": lambda cur: None, "idb": lambda cur: None})
+    def inv_opts(e):
+        # (also at loop entry, where it pins the DEFAULTS: no such option seen yet -> 10^6 and 0)
+        i = e.it
+        opt_def(i)
+        return band(same_float(e.self.attrs["_divisor"], canon_divisor(lastres(i))), c.prove(eq(e.self.attrs["_tsoffset"], canon_offset(lastoff(i)))))
+    c.loop(RD + ".__init__", "for opt in idb.opts", invariant=inv_opts, ghost_step=ghost_opts,
+           havoc={"self._divisor": lambda cur: cur, "self._tsoffset": lambda cur: cur, "opt_val": lambda cur: None, "pow_num": lambda cur: None})
+    out = c.new(RD, f)
+    c.ensure("no_raise", out.exc is None, kind="raises")
+    if out.exc is not None:
+        return
+    rd = out.value
+    opt_def(N)
+    c.ensure("first_interface_description_found_and_decoded_once", len(idb_made) == 1)
+    c.ensure("resolution_is_that_of_the_last_tsresol_option", same_float(rd.attrs["_divisor"], canon_divisor(lastres(N))))
+    c.ensure("offset_is_that_of_the_last_tsoffset_option", c.prove(eq(rd.attrs["_tsoffset"], canon_offset(lastoff(N)))))
+    c.ensure("byte_order_flag", rd.attrs.get("__le") is le)
+    c.cover("returned")
+
+
+h_init.must_cover = ["returned", "search_iteration", "option_iteration"]
